@@ -154,7 +154,14 @@ type bedEvent struct {
 	Panic   bool      `json:"panic"`
 }
 
+// words that mean something in files of this format family (UCSC header lines, placeholders): as field VALUES they
+// are ordinary text
+var bedWords = []string{"track", "browser", "track name=a", "browser position chr1:1-2", "trackhub", ".", "*", "chr1", "NA", "0", "-1", "+", "chrom"}
+
 func bedText(r *rand.Rand, chrom bool) string {
+	if r.Intn(5) == 0 {
+		return bedWords[r.Intn(len(bedWords))]
+	}
 	s := samText(r, true)
 	if chrom && strings.HasPrefix(s, "#") {
 		s = "c" + s
